@@ -369,7 +369,7 @@ func Hub(r *rand.Rand) IG {
 	n := l + 1
 	attach := r.Intn(2)
 	e = append(e, [2]int{attach, hub})
-	m := 31 + r.Intn(30)
+	m := 31 + r.Intn(16)
 	// targets at least two layers below the hub's initial layer: every hub edge has slack, so the hub can (and has to) move
 	first := attach + 3
 	type out struct {
